@@ -1,5 +1,7 @@
 import Umya.Driver.Proto
 import Umya.Model.NumFmt
+import Umya.Model.Date
+import Umya.Model.Gen.Tables
 namespace Umya.Driver.C19
 open Umya.NumFmt Umya.Proto
 
@@ -19,9 +21,19 @@ def builtinCode : Nat → Option (List Char)
   | 49 => some textCode
   | _ => none
 
-/-- ids 0..49 that have no entry in the crate's table (`set_number_format_id` refuses them) -/
+/-- ids that have no entry in the crate's table (`set_number_format_id` refuses them); the table is the one
+    regenerated from `numbering_format.rs` on every run -/
 def notInTable (n : Nat) : Bool :=
-  n ∈ [5, 6, 7, 8, 23, 24, 25, 26, 41, 42, 43]
+  !(Umya.Gen.builtin_format_codes.any (fun p => p.1 == n))
+
+/-- the code of a built-in date/time id whose dispatch the date model covers (`strftimeOf` answers) -/
+def builtinDateCode (n : Nat) : Option (List Char) :=
+  match Umya.Gen.builtin_format_codes.find? (fun p => p.1 == n) with
+  | some p => if (Umya.Date.strftimeOf p.2.toList).isSome then some p.2.toList else none
+  | none => none
+
+def dtStr (t : Umya.Date.DateTime) : String :=
+  s!"{t.year} {t.month} {t.day} {t.hour} {t.minute} {t.second}"
 
 def handle (args : List String) : String :=
   match args with
@@ -48,6 +60,22 @@ def handle (args : List String) : String :=
         | some code => out (cellFormattedValue (.number v) code)
         | none => "unmodelled"
     | _, _ => "bad-op"
+  | ["date", n, b, v] =>
+    -- precondition (checked by the harness): `v` is the Display text of the double with bit pattern `b`
+    match n.toNat?, b.toNat?, decodeStr v with
+    | some n, some b, some v =>
+      if notInTable n then "noid"
+      else match builtinDateCode n with
+        | some code => out (Umya.Date.formatAsDateChecked code v (Float.ofBits (UInt64.ofNat b)))
+        | none => "unmodelled"
+    | _, _, _ => "bad-op"
+  | ["edt", b] =>
+    match b.toNat? with
+    | some b =>
+      (match Umya.Date.excelToDateTimeObject (Float.ofBits (UInt64.ofNat b)) with
+       | some t => dtStr t
+       | none => "none")
+    | none => "bad-op"
   | _ => "bad-op"
 
 end Umya.Driver.C19
